@@ -571,7 +571,7 @@ def replay(key: str, model: dict, obligation: dict) -> dict:
                     out["detail"] = (f"real code raised {type(raised).__name__} " +
                                      ("within" if allowed else "OUTSIDE") + f" the condition the contract allows for {listed}")
                     return out
-                if isinstance(raised, (AttributeError, TypeError, NameError)):
+                if isinstance(raised, (AttributeError, TypeError, NameError)) or type(raised).__name__ == "ValidationError":
                     out["reproduced"] = None
                     out["detail"] = f"real code raised {type(raised).__name__} (possibly an artefact of the partially constructed state)"
                     return out
